@@ -1,8 +1,9 @@
 /-
-  SOURCE TIE, CVSS3: the hand-written model `Cvss.Model.V3` equals the translation of cvss/cvss3.py's
-  `handle_scope`, `add_missing_optional`, `get_value` and `compute_*` methods that `tools/gen_code.py`
-  regenerates from the SOURCE TEXT on every run (`Cvss.Gen.Code3`).  Every theorem declared directly in
-  this namespace is an obligation.
+  SOURCE TIE, CVSS3: the hand-written model `Cvss.Model.V3` equals the translation of cvss/cvss3.py that
+  `tools/gen_code.py` regenerates from the SOURCE TEXT on every run (`Cvss.Gen.Code3`): the whole
+  constructor (`__init__`: `parse_vector`, `check_mandatory`, `handle_scope`, `add_missing_optional`,
+  `compute_*`) with its exception classes, `get_value`, and the accessors.  Translated code runs in
+  `Py.M = Except Py.Exc`.  Every theorem declared directly in this namespace is an obligation.
 -/
 import Cvss.Py
 import Cvss.Gen.Code3
@@ -11,7 +12,7 @@ namespace Cvss.Props.CodeTie3
 open Cvss Cvss.Gen
 
 /-- `round_up` is ROUND_CEILING to one decimal -/
-theorem round_eq (x : Rat) : Code3.round_up x = some (roundUp1 x) := by
+theorem round_eq (x : Rat) : Code3.round_up x = .ok (roundUp1 x) := by
   rfl
 
 /-- the model's context of a translated object whose scope attributes are set -/
@@ -20,19 +21,125 @@ def ctxOf (self : Code3.Self) (sc ms : Str) : Model.V3.Ctx :=
 
 namespace Aux
 
+/-! ### `Except` → `Option` -/
+
+theorem toOption_bind {ε α β : Type} (x : Except ε α) (f : α → Except ε β) :
+    (x >>= f).toOption = x.toOption.bind (fun a => (f a).toOption) := by cases x <;> rfl
+theorem toOption_pure {ε α : Type} (a : α) : (pure a : Except ε α).toOption = some a := rfl
+theorem toOption_ok {ε α : Type} (a : α) : (Except.ok a : Except ε α).toOption = some a := rfl
+theorem toOption_error {ε α : Type} (e : ε) : (Except.error e : Except ε α).toOption = none := rfl
+theorem toOption_getitem {β : Type} (k : Str) (d : List (Str × β)) :
+    (Py.getitem k d).toOption = lookup k d := by
+  unfold Py.getitem; cases lookup k d <;> rfl
+theorem toOption_req {α : Type} (o : Option α) : (Py.req o).toOption = o := by cases o <;> rfl
+theorem toOption_raise {α : Type} (e : Py.Exc) : (Py.raise e : Py.M α).toOption = none := rfl
+theorem toOption_ite {ε α : Type} (c : Prop) [Decidable c] (x y : Except ε α) :
+    (if c then x else y).toOption = if c then x.toOption else y.toOption := by split <;> rfl
+theorem toOption_assert (c : Prop) [Decidable c] :
+    (Py.assert c).toOption = if c then some () else none := by unfold Py.assert; split <;> rfl
+theorem toOption_round_up (x : Rat) : (Code3.round_up x).toOption = some (roundUp1 x) := rfl
+theorem toOption_eq_some {ε α : Type} {x : Except ε α} {a : α} (h : x = .ok a) : x.toOption = some a := by
+  subst h; rfl
+theorem toOption_eq_none {ε α : Type} {x : Except ε α} {e : ε} (h : x = .error e) : x.toOption = none := by
+  subst h; rfl
+
+/-! ### computations that raise no exception of the library's own hierarchy -/
+
+def Foreign {α : Type} (x : Py.M α) : Prop := ∀ e, x = .error e → e.toErr = .foreign
+
+theorem Foreign.pure {α : Type} (a : α) : Foreign (pure a : Py.M α) := by intro e h; cases h
+theorem Foreign.ok {α : Type} (a : α) : Foreign (.ok a : Py.M α) := by intro e h; cases h
+theorem Foreign.bind {α β : Type} {x : Py.M α} {f : α → Py.M β} (hx : Foreign x)
+    (hf : ∀ a, Foreign (f a)) : Foreign (x >>= f) := by
+  intro e h
+  cases x with
+  | error e' => cases h; exact hx _ rfl
+  | ok a => exact hf a e h
+theorem Foreign.ite {α : Type} {c : Prop} [Decidable c] {x y : Py.M α} (hx : Foreign x) (hy : Foreign y) :
+    Foreign (if c then x else y) := by split <;> assumption
+theorem Foreign.getitem {β : Type} (k : Str) (d : List (Str × β)) : Foreign (Py.getitem k d) := by
+  intro e h; unfold Py.getitem at h; cases hl : lookup k d <;> rw [hl] at h <;> cases h; rfl
+theorem Foreign.req {α : Type} (o : Option α) : Foreign (Py.req o) := by
+  intro e h; cases o <;> cases h; rfl
+theorem Foreign.assert (c : Prop) [Decidable c] : Foreign (Py.assert c) := by
+  intro e h; unfold Py.assert at h; split at h <;> cases h; rfl
+theorem Foreign.raise_other {α : Type} : Foreign (Py.raise .other : Py.M α) := by
+  intro e h; cases h; rfl
+theorem Foreign.foldlM {α β : Type} {f : β → α → Py.M β} (hf : ∀ s a, Foreign (f s a)) (l : List α) :
+    ∀ s, Foreign (List.foldlM f s l) := by
+  induction l with
+  | nil => intro s; exact Foreign.pure s
+  | cons a rest ih => intro s; rw [List.foldlM_cons]; exact Foreign.bind (hf s a) ih
+
+/-- one step of the syntax-directed proof that a computation is `Foreign` (extended below) -/
+syntax "foreign_step" : tactic
+macro_rules
+  | `(tactic| foreign_step) => `(tactic| with_reducible first
+      | exact Foreign.pure _ | exact Foreign.ok _ | exact Foreign.getitem _ _ | exact Foreign.req _
+      | exact Foreign.assert _ | exact Foreign.raise_other
+      | apply Foreign.ite | apply Foreign.foldlM | apply Foreign.bind | intro _)
+macro "foreign" : tactic => `(tactic| repeat foreign_step)
+
+/-! ### computations that leave `vector` and `minor_version` alone -/
+
+abbrev key (x : Code3.Self) : Str × Option Int := (x.vector, x.minor_version)
+
+def Keeps (k : Str × Option Int) (m : Py.M Code3.Self) : Prop := ∀ x, m = .ok x → key x = k
+
+theorem Keeps.pure {k : Str × Option Int} {y : Code3.Self} (h : key y = k) : Keeps k (pure y) := by
+  intro x hx; cases hx; exact h
+theorem Keeps.raise {k : Str × Option Int} {e : Py.Exc} : Keeps k (Py.raise e) := by
+  intro x hx; cases hx
+theorem Keeps.bind {α : Type} {k : Str × Option Int} {m : Py.M α} {f : α → Py.M Code3.Self}
+    (hf : ∀ a, Keeps k (f a)) : Keeps k (m >>= f) := by
+  intro x hx
+  cases m with
+  | error e => cases hx
+  | ok a => exact hf a x hx
+theorem Keeps.bindS {k : Str × Option Int} {m : Py.M Code3.Self} {f : Code3.Self → Py.M Code3.Self}
+    (hm : Keeps k m) (hf : ∀ y, key y = k → Keeps k (f y)) : Keeps k (m >>= f) := by
+  intro x hx
+  cases m with
+  | error e => cases hx
+  | ok a => exact hf a (hm a rfl) x hx
+theorem Keeps.ite {k : Str × Option Int} {c : Prop} [Decidable c] {x y : Py.M Code3.Self}
+    (hx : Keeps k x) (hy : Keeps k y) : Keeps k (if c then x else y) := by split <;> assumption
+theorem Keeps.foldlM {α : Type} {k : Str × Option Int} {f : Code3.Self → α → Py.M Code3.Self}
+    (hf : ∀ s a, key s = k → Keeps k (f s a)) (l : List α) :
+    ∀ s, key s = k → Keeps k (List.foldlM f s l) := by
+  induction l with
+  | nil => intro s hs; exact Keeps.pure hs
+  | cons a rest ih => intro s hs; rw [List.foldlM_cons]; exact Keeps.bindS (hf s a hs) ih
+
+/-- one step of the syntax-directed proof that a computation `Keeps` the key (extended below) -/
+syntax "keeps_step" : tactic
+macro_rules
+  | `(tactic| keeps_step) => `(tactic| with_reducible first
+      | exact Keeps.raise | exact Keeps.pure (by assumption) | apply Keeps.ite | apply Keeps.foldlM
+      | apply Keeps.bindS | apply Keeps.bind | intro _ | assumption)
+macro "keeps" : tactic => `(tactic| repeat keeps_step)
+
 theorem prTable :
     ([(c!"X", none), (c!"N", (some (mkRat (17) 20))), (c!"L", (some (mkRat (17) 25))), (c!"H", (some (mkRat (1) 2)))] : List (Str × (Option Rat)))
       = Model.V3.prChanged := by
   decide
 
+theorem Foreign.get_value (self : Code3.Self) (a : Str) : Foreign (Code3.get_value self a) := by
+  unfold Code3.get_value; foreign
+
+macro_rules
+  | `(tactic| foreign_step) => `(tactic| with_reducible exact Foreign.get_value _ _)
+
 end Aux
 
-/-- `get_value`, including the literal Privileges-Required table for (Modified) Scope Changed -/
+/-- `get_value`, including the literal Privileges-Required table for (Modified) Scope Changed
+    (a `None` weight counts as the failure it causes as soon as it is used) -/
 theorem get_value_eq (self : Code3.Self) (sc ms : Str) (a : Str)
     (h1 : self.scope = some sc) (h2 : self.modified_scope = some ms) :
-    (Code3.get_value self a).bind id = Model.V3.getValue (ctxOf self sc ms) a := by
+    (Code3.get_value self a).toOption.bind id = Model.V3.getValue (ctxOf self sc ms) a := by
   unfold Code3.get_value Model.V3.getValue
-  simp only [Aux.prTable, h1, h2, ctxOf, Option.some.injEq, Py.getitem, Py.getD, Model.V3.X, bind, pure]
+  simp only [Aux.prTable, h1, h2, ctxOf, Option.some.injEq, Py.getD, Model.V3.X,
+    Aux.toOption_bind, Aux.toOption_pure, Aux.toOption_ite, Aux.toOption_getitem]
   by_cases hc : (a = c!"PR" ∧ sc = c!"C") ∨ (a = c!"MPR" ∧ ms = c!"C")
   · simp only [if_pos hc]
     cases h : lookup ((lookup a self.metrics).getD c!"X") Model.V3.prChanged <;> simp [hc]
@@ -43,9 +150,9 @@ theorem get_value_eq (self : Code3.Self) (sc ms : Str) (a : Str)
       cases h' : lookup ((lookup a self.metrics).getD c!"X") row <;> simp [h', hc]
 
 theorem get_value_description_eq (self : Code3.Self) (a : Str) :
-    Code3.get_value_description self a = Model.V3.getDescription self.metrics a := by
+    (Code3.get_value_description self a).toOption = Model.V3.getDescription self.metrics a := by
   unfold Code3.get_value_description Model.V3.getDescription
-  simp only [Py.getitem, Py.getD, Model.V3.X, bind, pure]
+  simp only [Py.getD, Model.V3.X, Aux.toOption_bind, Aux.toOption_pure, Aux.toOption_getitem]
   cases lookup a Gen.V3.valueNames with
   | none => rfl
   | some row => simp
@@ -53,7 +160,7 @@ theorem get_value_description_eq (self : Code3.Self) (a : Str) :
 namespace Aux
 
 /-- the loop body of `add_missing_optional` -/
-def amoBody (self : Code3.Self) (abbreviation : Str) : Option Code3.Self := (do
+def amoBody (self : Code3.Self) (abbreviation : Str) : Py.M Code3.Self := (do
       let b2 ← (do
           if (¬ (Py.contains abbreviation self.metrics = true)) then pure true else (do
               let t1 ← Py.getitem abbreviation self.metrics
@@ -66,39 +173,46 @@ def amoBody (self : Code3.Self) (abbreviation : Str) : Option Code3.Self := (do
       pure self)
 
 theorem amo_fold (l : List Str) : ∀ self : Code3.Self,
-    List.foldlM amoBody self l =
+    (List.foldlM amoBody self l).toOption =
       (Model.V3.addMissingOptional self.metrics l).map (fun full => { self with metrics := full }) := by
   induction l with
   | nil => intro self; rfl
   | cons a rest ih =>
     intro self
-    rw [List.foldlM_cons]
+    rw [List.foldlM_cons, toOption_bind]
+    simp only [amoBody, toOption_bind, toOption_ite, toOption_pure, toOption_getitem]
     cases h : lookup a self.metrics with
     | none =>
       cases h' : lookup (List.tail a) self.metrics with
-      | none => simp [amoBody, Model.V3.addMissingOptional, hasKey, Py.getitem, Py.setitem, h, h']
-      | some b => simp [amoBody, Model.V3.addMissingOptional, hasKey, Py.getitem, Py.setitem, h, h', ih]
+      | none => simp [Model.V3.addMissingOptional, hasKey, Py.setitem, h, h']
+      | some b => simp [Model.V3.addMissingOptional, hasKey, Py.setitem, h, h', ih]
     | some v =>
       by_cases hv : v = c!"X"
       · cases h' : lookup (List.tail a) self.metrics with
-        | none => simp [amoBody, Model.V3.addMissingOptional, hasKey, Py.getitem, Py.setitem, Model.V3.X, h, h', hv]
-        | some b => simp [amoBody, Model.V3.addMissingOptional, hasKey, Py.getitem, Py.setitem, Model.V3.X, h, h', hv, ih]
-      · simp [amoBody, Model.V3.addMissingOptional, hasKey, Py.getitem, Py.setitem, Model.V3.X, h, hv, ih]
+        | none => simp [Model.V3.addMissingOptional, hasKey, Py.setitem, Model.V3.X, h, h', hv]
+        | some b => simp [Model.V3.addMissingOptional, hasKey, Py.setitem, Model.V3.X, h, h', hv, ih]
+      · simp [Model.V3.addMissingOptional, hasKey, Py.setitem, Model.V3.X, h, hv, ih]
+
+theorem amo_unfold (self : Code3.Self) :
+    Code3.add_missing_optional self =
+      List.foldlM amoBody { self with original_metrics := some self.metrics } Model.V3.modifiedMetrics := by
+  unfold Code3.add_missing_optional; rfl
 
 theorem amo_state (self : Code3.Self) :
-    Code3.add_missing_optional self =
+    (Code3.add_missing_optional self).toOption =
       (Model.V3.addMissingOptional self.metrics Model.V3.modifiedMetrics).map
         (fun full => { self with original_metrics := some self.metrics, metrics := full }) := by
   have := amo_fold Model.V3.modifiedMetrics { self with original_metrics := some self.metrics }
-  unfold Code3.add_missing_optional
-  simp only [bind, pure]
-  exact this
+  rw [amo_unfold, this]
+
+theorem Foreign.amo (self : Code3.Self) : Foreign (Code3.add_missing_optional self) := by
+  unfold Code3.add_missing_optional; foreign
 
 end Aux
 
 /-- `add_missing_optional` (metrics part) -/
 theorem add_missing_optional_eq (self : Code3.Self) :
-    (Code3.add_missing_optional self).map (fun s => (s.original_metrics, s.metrics)) =
+    (Code3.add_missing_optional self).toOption.map (fun s => (s.original_metrics, s.metrics)) =
       (Model.V3.addMissingOptional self.metrics Model.V3.modifiedMetrics).map
         (fun full => (some self.metrics, full)) := by
   rw [Aux.amo_state]
@@ -123,34 +237,35 @@ theorem q_9731 : r 9731 10000 = mkRat 9731 10000 := rfl
 /-- `t ← get_value self a; v ← req t; f v` reads the model's `getValue` -/
 theorem gvb {β : Type} (self : Code3.Self) (sc ms : Str) (h1 : self.scope = some sc)
     (h2 : self.modified_scope = some ms) (a : Str) (f : Rat → Option β) :
-    (Code3.get_value self a).bind (fun t => t.bind f) = (getValue (ctxOf self sc ms) a).bind f := by
+    (Code3.get_value self a).toOption.bind (fun t => t.bind f) = (getValue (ctxOf self sc ms) a).bind f := by
   rw [← get_value_eq self sc ms a h1 h2]
-  cases Code3.get_value self a <;> rfl
+  cases (Code3.get_value self a).toOption <;> rfl
 
 theorem isc_base_state (self : Code3.Self) (sc ms : Str) (h1 : self.scope = some sc)
     (h2 : self.modified_scope = some ms) :
-    Code3.compute_isc_base self =
+    (Code3.compute_isc_base self).toOption =
       (iscBase (ctxOf self sc ms)).map (fun v => { self with isc_base := some v }) := by
   unfold Code3.compute_isc_base iscBase
-  simp only [Option.bind_eq_bind, Py.req, gvb self sc ms h1 h2, q_1, pure]
+  simp only [toOption_bind, toOption_req, toOption_pure, Option.bind_eq_bind, gvb self sc ms h1 h2, q_1, Option.pure_def]
   cases getValue (ctxOf self sc ms) c!"C" <;> cases getValue (ctxOf self sc ms) c!"I" <;>
     cases getValue (ctxOf self sc ms) c!"A" <;> rfl
 
 theorem isc_state (self : Code3.Self) (sc ms : Str) (h1 : self.scope = some sc) :
-    Code3.compute_isc self =
+    (Code3.compute_isc self).toOption =
       (self.isc_base.bind (isc (ctxOf self sc ms))).map (fun v => { self with isc := some v }) := by
   unfold Code3.compute_isc isc
-  simp only [Option.bind_eq_bind, Py.req, h1, Option.some.injEq, ctxOf, q_642, q_752, q_29, q_325, q_2, pure]
+  simp only [toOption_bind, toOption_req, toOption_pure, toOption_ite, toOption_raise, h1, Option.some.injEq,
+    ctxOf, q_642, q_752, q_29, q_325, q_2]
   cases self.isc_base with
   | none => by_cases hu : sc = c!"U" <;> by_cases hc : sc = c!"C" <;> simp [hu, hc]
   | some ib => by_cases hu : sc = c!"U" <;> by_cases hc : sc = c!"C" <;> simp [hu, hc]
 
 theorem esc_state (self : Code3.Self) (sc ms : Str) (h1 : self.scope = some sc)
     (h2 : self.modified_scope = some ms) :
-    Code3.compute_esc self =
+    (Code3.compute_esc self).toOption =
       (esc (ctxOf self sc ms)).map (fun v => { self with esc := some v }) := by
   unfold Code3.compute_esc esc
-  simp only [Option.bind_eq_bind, Py.req, gvb self sc ms h1 h2, q_822, pure]
+  simp only [toOption_bind, toOption_req, toOption_pure, Option.bind_eq_bind, gvb self sc ms h1 h2, q_822, Option.pure_def]
   cases getValue (ctxOf self sc ms) c!"AV" <;> cases getValue (ctxOf self sc ms) c!"AC" <;>
     cases getValue (ctxOf self sc ms) c!"PR" <;> cases getValue (ctxOf self sc ms) c!"UI" <;> rfl
 
@@ -166,81 +281,81 @@ theorem baseScore_eq (c : Ctx) :
 
 theorem base_state (self : Code3.Self) (sc ms : Str) (h1 : self.scope = some sc)
     (h2 : self.modified_scope = some ms) :
-    Code3.compute_base_score self =
+    (Code3.compute_base_score self).toOption =
       (iscBase (ctxOf self sc ms)).bind fun ib => (isc (ctxOf self sc ms) ib).bind fun i =>
         (esc (ctxOf self sc ms)).bind fun e => (baseFin (ctxOf self sc ms) i e).map fun b =>
           { self with isc_base := some ib, isc := some i, esc := some e, base_score := some b } := by
   unfold Code3.compute_base_score
-  simp only [Option.bind_eq_bind]
-  rw [isc_base_state self sc ms h1 h2]
+  rw [toOption_bind, isc_base_state self sc ms h1 h2]
   cases iscBase (ctxOf self sc ms) with
   | none => rfl
   | some ib =>
     simp only [Option.map_some, Option.bind_some]
-    have e1 := isc_state { self with isc_base := some ib } sc ms h1
-    rw [e1]
+    rw [toOption_bind, isc_state { self with isc_base := some ib } sc ms h1]
     change Option.bind (Option.map _ (isc (ctxOf self sc ms) ib)) _ = _
     cases isc (ctxOf self sc ms) ib with
     | none => rfl
     | some i =>
       simp only [Option.map_some, Option.bind_some]
-      have e2 := esc_state { self with isc_base := some ib, isc := some i } sc ms h1 h2
-      rw [e2]
+      rw [toOption_bind, esc_state { self with isc_base := some ib, isc := some i } sc ms h1 h2]
       change Option.bind (Option.map _ (esc (ctxOf self sc ms))) _ = _
       cases esc (ctxOf self sc ms) with
       | none => rfl
       | some e =>
-        simp only [Option.map_some, Option.bind_some, Py.req, Code3.round_up, Py.quantize1, h1,
-          Option.some.injEq, q_0, q_10, baseFin, ctxOf, q_108, pure]
+        simp only [Option.map_some, Option.bind_some, toOption_bind, toOption_req, toOption_ite, toOption_pure,
+          toOption_assert, toOption_round_up, h1,
+          Option.some.injEq, q_0, q_10, baseFin, ctxOf, q_108, Option.pure_def]
         by_cases hi : i ≤ 0
         · simp [hi]
         · by_cases hu : sc = c!"U" <;> by_cases hc : sc = c!"C" <;> simp [hi, hu, hc]
 
 theorem temporal_state (self : Code3.Self) (sc ms : Str) (h1 : self.scope = some sc)
     (h2 : self.modified_scope = some ms) :
-    Code3.compute_temporal_score self =
+    (Code3.compute_temporal_score self).toOption =
       (self.base_score.bind (temporalScore (ctxOf self sc ms))).map
         (fun v => { self with temporal_score := some v }) := by
   unfold Code3.compute_temporal_score temporalScore
-  simp only [Option.bind_eq_bind, Py.req, gvb self sc ms h1 h2, Code3.round_up, Py.quantize1, pure]
+  simp only [toOption_bind, toOption_req, toOption_round_up, toOption_pure, Option.bind_eq_bind,
+    gvb self sc ms h1 h2, Option.pure_def]
   cases self.base_score <;>
   cases getValue (ctxOf self sc ms) c!"E" <;> cases getValue (ctxOf self sc ms) c!"RL" <;>
     cases getValue (ctxOf self sc ms) c!"RC" <;> rfl
 
 theorem mib_state (self : Code3.Self) (sc ms : Str) (h1 : self.scope = some sc)
     (h2 : self.modified_scope = some ms) :
-    Code3.compute_modified_isc_base self =
+    (Code3.compute_modified_isc_base self).toOption =
       (modifiedIscBase (ctxOf self sc ms)).map (fun v => { self with modified_isc_base := some v }) := by
   unfold Code3.compute_modified_isc_base modifiedIscBase
-  simp only [Option.bind_eq_bind, Py.req, gvb self sc ms h1 h2, q_1, q_915, pure]
+  simp only [toOption_bind, toOption_req, Option.bind_eq_bind, gvb self sc ms h1 h2, q_1, q_915, Option.pure_def]
   cases getValue (ctxOf self sc ms) c!"MC" <;> cases getValue (ctxOf self sc ms) c!"CR" <;>
     cases getValue (ctxOf self sc ms) c!"MI" <;> cases getValue (ctxOf self sc ms) c!"IR" <;>
     cases getValue (ctxOf self sc ms) c!"MA" <;> cases getValue (ctxOf self sc ms) c!"AR" <;> rfl
 
 theorem misc30_state (self : Code3.Self) (sc ms : Str) (h2 : self.modified_scope = some ms) :
-    Code3.compute_modified_isc_30 self =
+    (Code3.compute_modified_isc_30 self).toOption =
       self.modified_isc_base.map
         (fun mib => { self with modified_isc := some (modifiedIsc (ctxOf self sc ms) 0 mib) }) := by
   unfold Code3.compute_modified_isc_30 modifiedIsc
-  simp only [Option.bind_eq_bind, Py.req, h2, Option.some.injEq, ctxOf, q_642, q_752, q_29, q_325, q_2, pure]
+  simp only [toOption_bind, toOption_req, toOption_ite, toOption_pure, h2, Option.some.injEq, ctxOf,
+    q_642, q_752, q_29, q_325, q_2]
   cases self.modified_isc_base <;> by_cases hu : ms = c!"U" <;> simp [hu]
 
 theorem misc31_state (self : Code3.Self) (sc ms : Str) (minor : Nat) (hminor : minor ≠ 0)
     (h2 : self.modified_scope = some ms) :
-    Code3.compute_modified_isc self =
+    (Code3.compute_modified_isc self).toOption =
       self.modified_isc_base.map
         (fun mib => { self with modified_isc := some (modifiedIsc (ctxOf self sc ms) minor mib) }) := by
   unfold Code3.compute_modified_isc modifiedIsc
-  simp only [Option.bind_eq_bind, Py.req, h2, Option.some.injEq, ctxOf, q_642, q_752, q_29, q_325, q_2,
-    q_9731, pure]
+  simp only [toOption_bind, toOption_req, toOption_ite, toOption_pure, h2, Option.some.injEq, ctxOf,
+    q_642, q_752, q_29, q_325, q_2, q_9731]
   cases self.modified_isc_base <;> by_cases hu : ms = c!"U" <;> simp [hu, hminor]
 
 theorem mesc_state (self : Code3.Self) (sc ms : Str) (h1 : self.scope = some sc)
     (h2 : self.modified_scope = some ms) :
-    Code3.compute_modified_esc self =
+    (Code3.compute_modified_esc self).toOption =
       (modifiedEsc (ctxOf self sc ms)).map (fun v => { self with modified_esc := some v }) := by
   unfold Code3.compute_modified_esc modifiedEsc
-  simp only [Option.bind_eq_bind, Py.req, gvb self sc ms h1 h2, q_822, pure]
+  simp only [toOption_bind, toOption_req, Option.bind_eq_bind, gvb self sc ms h1 h2, q_822, Option.pure_def]
   cases getValue (ctxOf self sc ms) c!"MAV" <;> cases getValue (ctxOf self sc ms) c!"MAC" <;>
     cases getValue (ctxOf self sc ms) c!"MPR" <;> cases getValue (ctxOf self sc ms) c!"MUI" <;> rfl
 
@@ -263,22 +378,21 @@ theorem environmentalScore_eq (c : Ctx) (minor : Nat) :
 
 theorem env_state (self : Code3.Self) (sc ms : Str) (minor : Nat) (h1 : self.scope = some sc)
     (h2 : self.modified_scope = some ms) (hm : self.minor_version = some (minor : Int)) :
-    Code3.compute_environmental_score self =
+    (Code3.compute_environmental_score self).toOption =
       (modifiedIscBase (ctxOf self sc ms)).bind fun mib => (modifiedEsc (ctxOf self sc ms)).bind fun me =>
         (envFin (ctxOf self sc ms) (modifiedIsc (ctxOf self sc ms) minor mib) me).map fun e =>
           { self with modified_isc_base := some mib,
                       modified_isc := some (modifiedIsc (ctxOf self sc ms) minor mib),
                       modified_esc := some me, environmental_score := some e } := by
   unfold Code3.compute_environmental_score
-  simp only [Option.bind_eq_bind]
-  rw [mib_state self sc ms h1 h2]
+  rw [toOption_bind, mib_state self sc ms h1 h2]
   cases modifiedIscBase (ctxOf self sc ms) with
   | none => rfl
   | some mib =>
     simp only [Option.map_some, Option.bind_some]
     have e1 : (if self.minor_version = some (0 : Int) then
           Code3.compute_modified_isc_30 { self with modified_isc_base := some mib }
-        else Code3.compute_modified_isc { self with modified_isc_base := some mib }) =
+        else Code3.compute_modified_isc { self with modified_isc_base := some mib }).toOption =
         some { self with modified_isc_base := some mib,
                          modified_isc := some (modifiedIsc (ctxOf self sc ms) minor mib) } := by
       by_cases h0 : minor = 0
@@ -289,20 +403,25 @@ theorem env_state (self : Code3.Self) (sc ms : Str) (minor : Nat) (h1 : self.sco
           rw [hm]; intro h; apply h0; exact Int.ofNat.inj (Option.some.inj h)
         rw [if_neg hm', misc31_state { self with modified_isc_base := some mib } sc ms minor h0 h2]
         rfl
+    rw [toOption_bind]
+    change Option.bind (if self.minor_version = some (0 : Int) then
+          Code3.compute_modified_isc_30 { self with modified_isc_base := some mib }
+        else Code3.compute_modified_isc { self with modified_isc_base := some mib }).toOption _ = _
     rw [e1]
     simp only [Option.bind_some]
     have e2 := mesc_state { self with modified_isc_base := some mib, modified_isc := some (modifiedIsc (ctxOf self sc ms) minor mib) } sc ms h1 h2
-    rw [e2]
+    rw [toOption_bind, e2]
     change Option.bind (Option.map _ (modifiedEsc (ctxOf self sc ms))) _ = _
     cases modifiedEsc (ctxOf self sc ms) with
     | none => rfl
     | some me =>
       have g := @gvb Code3.Self { self with modified_isc_base := some mib, modified_isc := some (modifiedIsc (ctxOf self sc ms) minor mib), modified_esc := some me } sc ms h1 h2
-      simp only [Option.map_some, Option.bind_some, Py.req, g]
+      simp only [Option.map_some, Option.bind_some, toOption_ite, toOption_bind, toOption_req, toOption_pure,
+        toOption_round_up, g]
       change _ = Option.map _ (envFin (ctxOf self sc ms) (modifiedIsc (ctxOf self sc ms) minor mib) me)
       generalize modifiedIsc (ctxOf self sc ms) minor mib = mi
-      simp only [Code3.round_up, Py.quantize1, h2,
-          Option.some.injEq, q_0, q_10, envFin, ctxOf, q_108, pure, Option.bind_eq_bind]
+      simp only [h2,
+          Option.some.injEq, q_0, q_10, envFin, ctxOf, q_108, Option.pure_def, Option.bind_eq_bind]
       generalize getValue { metrics := self.metrics, scope := sc, modScope := ms } c!"E" = vE
       generalize getValue { metrics := self.metrics, scope := sc, modScope := ms } c!"RL" = vRL
       generalize getValue { metrics := self.metrics, scope := sc, modScope := ms } c!"RC" = vRC
@@ -317,11 +436,11 @@ def msOf (m : List (Str × Str)) (scope : Str) : Str :=
   | some v => if v = X then scope else v
 
 theorem scope_state (self : Code3.Self) :
-    Code3.handle_scope self =
+    (Code3.handle_scope self).toOption =
       (lookup c!"S" self.metrics).map
         (fun sc => { self with scope := some sc, modified_scope := some (msOf self.metrics sc) }) := by
   unfold Code3.handle_scope msOf
-  simp only [Option.bind_eq_bind, Py.getitem, Py.get?, X, pure]
+  simp only [toOption_bind, toOption_getitem, toOption_ite, toOption_pure, Py.get?, X]
   cases lookup c!"S" self.metrics with
   | none => rfl
   | some sc =>
@@ -338,34 +457,129 @@ theorem build_eq (s : Str) (minor : Nat) (m : List (Str × Str)) :
               (environmentalScore { metrics := full, scope := scope, modScope := msOf m scope } minor).bind fun e =>
                 some { vector := s, minor := minor, orig := m, metrics := full, base := b, temporal := t, env := e } := rfl
 
-end Aux
+theorem build_frame (s : Str) (minor : Nat) (m : List (Str × Str)) (o : Obj) (h : build s minor m = some o) :
+    o.vector = s ∧ o.minor = minor ∧ o.orig = m := by
+  rw [build_eq] at h
+  simp only [Option.bind_eq_some_iff, Option.some.injEq] at h
+  obtain ⟨_, _, _, _, _, _, _, _, _, _, rfl⟩ := h
+  exact ⟨rfl, rfl, rfl⟩
 
-/-- what `__init__` computes after `check_mandatory()`: the translated source and the model's `build`
-    produce the same original / filled-in metric dicts and the same three scores (or both raise), for
-    EVERY metric dict, both minor versions (any integer, in fact), whatever the attributes held before -/
-theorem init_tail_eq (self : Code3.Self) (vector s : Str) (minor : Nat)
+theorem Foreign.handle_scope (self : Code3.Self) : Foreign (Code3.handle_scope self) := by
+  unfold Code3.handle_scope; foreign
+theorem Foreign.round_up (x : Rat) : Foreign (Code3.round_up x) := by
+  unfold Code3.round_up; foreign
+macro_rules
+  | `(tactic| foreign_step) => `(tactic| with_reducible exact Foreign.round_up _)
+theorem Foreign.isc_base (self : Code3.Self) : Foreign (Code3.compute_isc_base self) := by
+  unfold Code3.compute_isc_base; foreign
+theorem Foreign.isc (self : Code3.Self) : Foreign (Code3.compute_isc self) := by
+  unfold Code3.compute_isc; foreign
+theorem Foreign.esc (self : Code3.Self) : Foreign (Code3.compute_esc self) := by
+  unfold Code3.compute_esc; foreign
+macro_rules
+  | `(tactic| foreign_step) => `(tactic| with_reducible first
+      | exact Foreign.isc_base _ | exact Foreign.isc _ | exact Foreign.esc _)
+theorem Foreign.base (self : Code3.Self) : Foreign (Code3.compute_base_score self) := by
+  unfold Code3.compute_base_score; foreign
+theorem Foreign.temporal (self : Code3.Self) : Foreign (Code3.compute_temporal_score self) := by
+  unfold Code3.compute_temporal_score; foreign
+theorem Foreign.mib (self : Code3.Self) : Foreign (Code3.compute_modified_isc_base self) := by
+  unfold Code3.compute_modified_isc_base; foreign
+theorem Foreign.misc30 (self : Code3.Self) : Foreign (Code3.compute_modified_isc_30 self) := by
+  unfold Code3.compute_modified_isc_30; foreign
+theorem Foreign.misc (self : Code3.Self) : Foreign (Code3.compute_modified_isc self) := by
+  unfold Code3.compute_modified_isc; foreign
+theorem Foreign.mesc (self : Code3.Self) : Foreign (Code3.compute_modified_esc self) := by
+  unfold Code3.compute_modified_esc; foreign
+macro_rules
+  | `(tactic| foreign_step) => `(tactic| with_reducible first
+      | exact Foreign.mib _ | exact Foreign.misc30 _ | exact Foreign.misc _ | exact Foreign.mesc _)
+theorem Foreign.env (self : Code3.Self) : Foreign (Code3.compute_environmental_score self) := by
+  unfold Code3.compute_environmental_score; foreign
+macro_rules
+  | `(tactic| foreign_step) => `(tactic| with_reducible first
+      | exact Foreign.handle_scope _ | exact Foreign.amo _ | exact Foreign.base _ | exact Foreign.temporal _
+      | exact Foreign.env _)
+theorem Foreign.init_tail (self : Code3.Self) (vector : Str) : Foreign (Code3.init_tail self vector) := by
+  unfold Code3.init_tail; foreign
+
+theorem Keeps.handle_scope (self : Code3.Self) (k : Str × Option Int) (h : key self = k) :
+    Keeps k (Code3.handle_scope self) := by
+  unfold Code3.handle_scope; keeps
+theorem Keeps.amo (self : Code3.Self) (k : Str × Option Int) (h : key self = k) :
+    Keeps k (Code3.add_missing_optional self) := by
+  unfold Code3.add_missing_optional; keeps
+theorem Keeps.isc_base (self : Code3.Self) (k : Str × Option Int) (h : key self = k) :
+    Keeps k (Code3.compute_isc_base self) := by
+  unfold Code3.compute_isc_base; keeps
+theorem Keeps.isc (self : Code3.Self) (k : Str × Option Int) (h : key self = k) :
+    Keeps k (Code3.compute_isc self) := by
+  unfold Code3.compute_isc; keeps
+theorem Keeps.esc (self : Code3.Self) (k : Str × Option Int) (h : key self = k) :
+    Keeps k (Code3.compute_esc self) := by
+  unfold Code3.compute_esc; keeps
+macro_rules
+  | `(tactic| keeps_step) => `(tactic| with_reducible first
+      | exact Keeps.isc_base _ _ (by assumption) | exact Keeps.isc _ _ (by assumption)
+      | exact Keeps.esc _ _ (by assumption))
+theorem Keeps.base (self : Code3.Self) (k : Str × Option Int) (h : key self = k) :
+    Keeps k (Code3.compute_base_score self) := by
+  unfold Code3.compute_base_score; keeps
+theorem Keeps.temporal (self : Code3.Self) (k : Str × Option Int) (h : key self = k) :
+    Keeps k (Code3.compute_temporal_score self) := by
+  unfold Code3.compute_temporal_score; keeps
+theorem Keeps.mib (self : Code3.Self) (k : Str × Option Int) (h : key self = k) :
+    Keeps k (Code3.compute_modified_isc_base self) := by
+  unfold Code3.compute_modified_isc_base; keeps
+theorem Keeps.misc30 (self : Code3.Self) (k : Str × Option Int) (h : key self = k) :
+    Keeps k (Code3.compute_modified_isc_30 self) := by
+  unfold Code3.compute_modified_isc_30; keeps
+theorem Keeps.misc (self : Code3.Self) (k : Str × Option Int) (h : key self = k) :
+    Keeps k (Code3.compute_modified_isc self) := by
+  unfold Code3.compute_modified_isc; keeps
+theorem Keeps.mesc (self : Code3.Self) (k : Str × Option Int) (h : key self = k) :
+    Keeps k (Code3.compute_modified_esc self) := by
+  unfold Code3.compute_modified_esc; keeps
+macro_rules
+  | `(tactic| keeps_step) => `(tactic| with_reducible first
+      | exact Keeps.mib _ _ (by assumption) | exact Keeps.misc30 _ _ (by assumption)
+      | exact Keeps.misc _ _ (by assumption) | exact Keeps.mesc _ _ (by assumption))
+theorem Keeps.env (self : Code3.Self) (k : Str × Option Int) (h : key self = k) :
+    Keeps k (Code3.compute_environmental_score self) := by
+  unfold Code3.compute_environmental_score; keeps
+macro_rules
+  | `(tactic| keeps_step) => `(tactic| with_reducible first
+      | exact Keeps.handle_scope _ _ (by assumption) | exact Keeps.amo _ _ (by assumption)
+      | exact Keeps.base _ _ (by assumption) | exact Keeps.temporal _ _ (by assumption)
+      | exact Keeps.env _ _ (by assumption))
+theorem Keeps.init_tail (self : Code3.Self) (vector : Str) (k : Str × Option Int) (h : key self = k) :
+    Keeps k (Code3.init_tail self vector) := by
+  unfold Code3.init_tail; keeps
+
+/-- everything the statements after `check_mandatory()` do to the attributes that are observed -/
+theorem init_tail_strong (self : Code3.Self) (vector s : Str) (minor : Nat)
     (hm : self.minor_version = some (minor : Int)) :
-    (Code3.init_tail self vector).map
-        (fun x => (x.original_metrics, x.metrics, x.base_score, x.temporal_score, x.environmental_score)) =
+    (Code3.init_tail self vector).toOption.map
+        (fun x => (x.vector, x.minor_version, x.original_metrics, x.metrics, x.base_score, x.temporal_score,
+                   x.environmental_score)) =
       (Model.V3.build s minor self.metrics).map
-        (fun o => (some o.orig, o.metrics, some o.base, some o.temporal, some o.env)) := by
+        (fun o => (self.vector, self.minor_version, some o.orig, o.metrics, some o.base, some o.temporal,
+                   some o.env)) := by
   unfold Code3.init_tail
-  rw [Aux.build_eq]
-  simp only [Option.bind_eq_bind]
-  rw [Aux.scope_state]
+  rw [build_eq, toOption_bind, scope_state]
   cases lookup c!"S" self.metrics with
   | none => rfl
   | some sc =>
     simp only [Option.map_some, Option.bind_some]
-    rw [Aux.amo_state]
+    rw [toOption_bind, amo_state]
     change Option.map _ (Option.bind (Option.map _ (Model.V3.addMissingOptional self.metrics Model.V3.modifiedMetrics)) _) = _
     cases Model.V3.addMissingOptional self.metrics Model.V3.modifiedMetrics with
     | none => rfl
     | some full =>
       simp only [Option.map_some, Option.bind_some]
-      generalize Aux.msOf self.metrics sc = ms
-      have eb := Aux.base_state { self with scope := some sc, modified_scope := some ms, original_metrics := some self.metrics, metrics := full } sc ms rfl rfl
-      rw [eb, Aux.baseScore_eq]
+      generalize msOf self.metrics sc = ms
+      have eb := base_state { self with scope := some sc, modified_scope := some ms, original_metrics := some self.metrics, metrics := full } sc ms rfl rfl
+      rw [toOption_bind, eb, baseScore_eq]
       clear eb
       simp only [ctxOf]
       generalize hc : ({ metrics := full, scope := sc, modScope := ms } : Model.V3.Ctx) = c
@@ -381,21 +595,21 @@ theorem init_tail_eq (self : Code3.Self) (vector s : Str) (minor : Nat)
       | none => rfl
       | some e =>
       simp only [Option.bind_some]
-      cases Aux.baseFin c i e with
+      cases baseFin c i e with
       | none => rfl
       | some b =>
       simp only [Option.bind_some, Option.map_some]
-      have et := Aux.temporal_state { self with metrics := full, original_metrics := some self.metrics, scope := some sc, modified_scope := some ms, base_score := some b, isc_base := some ib, isc := some i, esc := some e } sc ms rfl rfl
+      have et := temporal_state { self with metrics := full, original_metrics := some self.metrics, scope := some sc, modified_scope := some ms, base_score := some b, isc_base := some ib, isc := some i, esc := some e } sc ms rfl rfl
       simp only [ctxOf, hc, Option.bind_some] at et
-      rw [et]
+      rw [toOption_bind, et]
       clear et
       cases Model.V3.temporalScore c b with
       | none => rfl
       | some t =>
       simp only [Option.bind_some, Option.map_some]
-      have ee := Aux.env_state { self with metrics := full, original_metrics := some self.metrics, scope := some sc, modified_scope := some ms, base_score := some b, isc_base := some ib, isc := some i, esc := some e, temporal_score := some t } sc ms minor rfl rfl hm
+      have ee := env_state { self with metrics := full, original_metrics := some self.metrics, scope := some sc, modified_scope := some ms, base_score := some b, isc_base := some ib, isc := some i, esc := some e, temporal_score := some t } sc ms minor rfl rfl hm
       simp only [ctxOf, hc] at ee
-      rw [ee, Aux.environmentalScore_eq]
+      rw [ee, environmentalScore_eq]
       clear ee
       cases Model.V3.modifiedIscBase c with
       | none => rfl
@@ -405,10 +619,328 @@ theorem init_tail_eq (self : Code3.Self) (vector s : Str) (minor : Nat)
       | none => rfl
       | some me =>
       simp only [Option.bind_some]
-      cases Aux.envFin c (Model.V3.modifiedIsc c minor mib) me with
+      cases envFin c (Model.V3.modifiedIsc c minor mib) me with
       | none => rfl
       | some ev => rfl
 
+end Aux
+
+/-- what `__init__` computes after `check_mandatory()`: the translated source and the model's `build`
+    produce the same original / filled-in metric dicts and the same three scores (or both raise), for
+    EVERY metric dict, any minor version number, whatever the attributes held before -/
+theorem init_tail_eq (self : Code3.Self) (vector s : Str) (minor : Nat)
+    (hm : self.minor_version = some (minor : Int)) :
+    (Code3.init_tail self vector).toOption.map
+        (fun x => (x.original_metrics, x.metrics, x.base_score, x.temporal_score, x.environmental_score)) =
+      (Model.V3.build s minor self.metrics).map
+        (fun o => (some o.orig, o.metrics, some o.base, some o.temporal, some o.env)) := by
+  have h := congrArg (Option.map (fun t => t.2.2)) (Aux.init_tail_strong self vector s minor hm)
+  simpa only [Option.map_map, Function.comp_def] using h
+
+/-- the scoring part never raises an exception of the library's own hierarchy, and it leaves `vector`
+    and `minor_version` alone -/
+theorem init_tail_error (self : Code3.Self) (vector : Str) (e : Py.Exc)
+    (h : Code3.init_tail self vector = .error e) : e.toErr = .foreign := by
+  exact Aux.Foreign.init_tail self vector e h
+
+theorem init_tail_frame (self x : Code3.Self) (vector : Str)
+    (h : Code3.init_tail self vector = .ok x) : x.vector = self.vector ∧ x.minor_version = self.minor_version := by
+  have := Aux.Keeps.init_tail self vector _ rfl x h
+  exact ⟨congrArg Prod.fst this, congrArg Prod.snd this⟩
+
+namespace Aux
+
+/-! ### the parser -/
+
+theorem hasKey_iff_mem_keys {β : Type} (k : Str) (l : List (Str × β)) : hasKey k l = true ↔ k ∈ keys l := by
+  induction l with
+  | nil => simp [hasKey, lookup, keys]
+  | cons p rest ih =>
+    obtain ⟨a, b⟩ := p
+    by_cases h : k = a
+    · simp [hasKey, lookup, keys, h]
+    · simp only [hasKey, keys] at ih
+      simp [hasKey, lookup, keys, h, ih]
+
+theorem lookup_legal (k : Str) (l : List (Str × List (Str × Option Rat))) :
+    lookup k (l.map (fun (k, row) => (k, keys row))) = (lookup k l).map keys := by
+  induction l with
+  | nil => rfl
+  | cons p rest ih =>
+    obtain ⟨a, b⟩ := p
+    by_cases h : k = a <;> simp [lookup, h, ih]
+
+theorem insert_of_not_hasKey {β : Type} (k : Str) (v : β) (l : List (Str × β)) (h : hasKey k l = false) :
+    insert k v l = l ++ [(k, v)] := by
+  induction l with
+  | nil => rfl
+  | cons p rest ih =>
+    obtain ⟨a, b⟩ := p
+    by_cases hk : k = a
+    · simp [hasKey, lookup, hk] at h
+    · have : hasKey k rest = false := by simpa [hasKey, lookup, hk] using h
+      simp [insert, hk, ih this]
+
+/-- the loop body of `parse_vector` -/
+def pvBody (st : Code3.Self) (field : Str) : Py.M Code3.Self := (do
+    let self := st
+    let () ← (if (field = c!"") then (do
+        Py.raise .malformed) else (do
+        pure ()))
+    let (metric, value_) ← Py.tryExcept (do
+        let (metric, value_) ← Py.unpack2 (splitOn ':' field)
+        pure (metric, value_)) .valueError (do
+        Py.raise .malformed)
+    let self ← (if (Py.contains metric Gen.V3.abbrs = true) then (do
+        let t1 ← Py.getitem metric Gen.V3.values
+        let self ← (if (Py.contains value_ t1 = true) then (do
+            let () ← (if (Py.contains metric self.metrics = true) then (do
+                Py.raise .malformed) else (do
+                pure ()))
+            let self : Code3.Self := { self with metrics := Py.setitem metric value_ self.metrics }
+            pure self) else (do
+            Py.raise .malformed))
+        pure self) else (do
+        Py.raise .malformed))
+    pure self)
+
+theorem pv_step (self : Code3.Self) (field : Str) :
+    (pvBody self field).mapError Py.Exc.toErr =
+      (Model.parseField Model.V3.tables self.metrics field).map (fun m => { self with metrics := m }) := by
+  unfold pvBody Model.parseField
+  by_cases hf : field = []
+  · simp [hf, Py.raise, bind, Except.bind, Except.mapError, Except.map, Py.Exc.toErr]
+  · rcases hs : splitOn ':' field with _ | ⟨m, _ | ⟨v, _ | ⟨w, rest⟩⟩⟩
+    · simp [hf, Py.raise, Py.unpack2, Py.tryExcept, bind, Except.bind, pure, Except.pure, Except.mapError, Except.map, Py.Exc.toErr]
+    · simp [hf, Py.raise, Py.unpack2, Py.tryExcept, bind, Except.bind, pure, Except.pure, Except.mapError, Except.map, Py.Exc.toErr]
+    · simp only [hf, if_false, Py.unpack2, Py.tryExcept, bind, Except.bind, pure, Except.pure, Model.V3.tables,
+        Bool.false_eq_true, lookup_legal]
+      simp only [← hasKey_iff_mem_keys, Py.contains, Py.getitem, Py.setitem]
+      by_cases ha : hasKey m Gen.V3.abbrs = true
+      · simp only [ha, if_true]
+        cases hl : lookup m Gen.V3.values with
+        | none => rfl
+        | some row =>
+          simp only [Option.map_some]
+          by_cases hv : hasKey v row = true
+          · have hv' := (hasKey_iff_mem_keys v row).mp hv
+            simp only [hv, hv', if_true]
+            by_cases hd : hasKey m self.metrics = true
+            · simp only [hd, if_true]; rfl
+            · have hd' : hasKey m self.metrics = false := by simpa using hd
+              simp only [hd', Bool.false_eq_true, if_false, insert_of_not_hasKey m v self.metrics hd']; rfl
+          · have hv' : ¬ v ∈ keys row := fun hh => hv ((hasKey_iff_mem_keys v row).mpr hh)
+            simp only [hv, hv', if_false]; rfl
+      · simp only [ha]; rfl
+    · simp [hf, Py.raise, Py.unpack2, Py.tryExcept, bind, Except.bind, pure, Except.pure, Except.mapError, Except.map, Py.Exc.toErr]
+
+theorem pv_fold (l : List Str) : ∀ self : Code3.Self,
+    (List.foldlM pvBody self l).mapError Py.Exc.toErr =
+      (Model.parseFields Model.V3.tables self.metrics l).map (fun m => { self with metrics := m }) := by
+  induction l with
+  | nil => intro self; rfl
+  | cons a rest ih =>
+    intro self
+    have hs := pv_step self a
+    rw [List.foldlM_cons]
+    unfold Model.parseFields
+    cases hb : pvBody self a with
+    | error e =>
+      rw [hb] at hs
+      cases hp : Model.parseField Model.V3.tables self.metrics a with
+      | error e' => rw [hp] at hs; cases hs; rfl
+      | ok m => rw [hp] at hs; cases hs
+    | ok x =>
+      rw [hb] at hs
+      cases hp : Model.parseField Model.V3.tables self.metrics a with
+      | error e' => rw [hp] at hs; cases hs
+      | ok m =>
+        rw [hp] at hs
+        have hx : x = { self with metrics := m } := by cases hs; rfl
+        subst hx
+        exact ih _
+
+theorem pv_unfold (self : Code3.Self) :
+    Code3.parse_vector self = (do
+      let () ← (if (self.vector = c!"") then (do
+          Py.raise .malformed) else (do
+          pure ()))
+      let () ← (if (endsWithChar '/' self.vector = true) then (do
+          Py.raise .malformed) else (do
+          pure ()))
+      let self ← (if (startsWith c!"CVSS:3.0/" self.vector = true) then (do
+          let self : Code3.Self := { self with minor_version := (some (0 : Int)) }
+          pure self) else (do
+          let self ← (if (startsWith c!"CVSS:3.1/" self.vector = true) then (do
+              let self : Code3.Self := { self with minor_version := (some (1 : Int)) }
+              pure self) else (do
+              Py.raise .malformed))
+          pure self))
+      let fields ← Py.tryExcept (do
+          let fields : List Str := (List.drop 1 (splitOn '/' self.vector))
+          pure fields) .indexError (do
+          Py.raise .malformed)
+      List.foldlM pvBody self fields) := by
+  unfold Code3.parse_vector; rfl
+
+end Aux
+
+/-- `parse_vector()` on a fresh object: same outcome class, same minor version, same metric dict as the
+    model's parser -/
+theorem parse_vector_eq (self : Code3.Self) (h : self.metrics = []) :
+    ((Code3.parse_vector self).mapError Py.Exc.toErr).map (fun x => (x.vector, x.minor_version, x.metrics)) =
+      (Model.parseWithPrefix Model.V3.tables Model.V3.prefixes self.vector).map
+        (fun r => (self.vector, some (r.1 : Int), r.2)) := by
+  rw [Aux.pv_unfold]
+  unfold Model.parseWithPrefix
+  by_cases h0 : self.vector = []
+  · simp [h0, Py.raise, bind, Except.bind, Except.mapError, Except.map, Py.Exc.toErr]
+  · by_cases h1 : endsWithChar '/' self.vector = true
+    · simp [h0, h1, Py.raise, bind, Except.bind, pure, Except.pure, Except.mapError, Except.map, Py.Exc.toErr]
+    · by_cases h30 : startsWith c!"CVSS:3.0/" self.vector = true
+      · have hf : Model.V3.prefixes.findIdx? (fun p => startsWith p self.vector) = some 0 := by
+          simp [Model.V3.prefixes, List.findIdx?_cons, h30]
+        have h1' : endsWithChar '/' self.vector = false := by simpa using h1
+        simp only [h, h0, h1', h30, hf, if_true, if_false, Bool.false_eq_true, Py.tryExcept, bind, Except.bind,
+          pure, Except.pure]
+        have := Aux.pv_fold (List.drop 1 (splitOn '/' self.vector)) { self with minor_version := some (0 : Int) }
+        simp only [h] at this
+        rw [this]
+        cases Model.parseFields Model.V3.tables [] (List.drop 1 (splitOn '/' self.vector)) <;> rfl
+      · by_cases h31 : startsWith c!"CVSS:3.1/" self.vector = true
+        · have hf : Model.V3.prefixes.findIdx? (fun p => startsWith p self.vector) = some 1 := by
+            simp [Model.V3.prefixes, List.findIdx?_cons, h30, h31]
+          have h1' : endsWithChar '/' self.vector = false := by simpa using h1
+          have h30' : startsWith c!"CVSS:3.0/" self.vector = false := by simpa using h30
+          simp only [h, h0, h1', h30', h31, hf, if_true, if_false, Bool.false_eq_true, Py.tryExcept, bind,
+            Except.bind, pure, Except.pure]
+          have := Aux.pv_fold (List.drop 1 (splitOn '/' self.vector)) { self with minor_version := some (1 : Int) }
+          simp only [h] at this
+          rw [this]
+          cases Model.parseFields Model.V3.tables [] (List.drop 1 (splitOn '/' self.vector)) <;> rfl
+        · have hf : Model.V3.prefixes.findIdx? (fun p => startsWith p self.vector) = none := by
+            simp [Model.V3.prefixes, List.findIdx?_cons, h30, h31]
+          simp [h0, h1, h30, h31, hf, Py.raise, bind, Except.bind, pure, Except.pure, Except.mapError, Except.map, Py.Exc.toErr]
+
+namespace Aux
+
+/-- the loop body of `check_mandatory` -/
+def cmBody (self : Code3.Self) (st : List Str) (mandatory_metric : Str) : Py.M (List Str) := (do
+    let missing := st
+    let missing ← (if (¬ (Py.contains mandatory_metric self.metrics = true)) then (do
+        let missing : List Str := missing ++ [mandatory_metric]
+        pure missing) else (do
+        pure missing))
+    pure missing)
+
+theorem cm_fold (self : Code3.Self) (l : List Str) : ∀ acc : List Str,
+    List.foldlM (cmBody self) acc l = .ok (acc ++ l.filter (fun k => !hasKey k self.metrics)) := by
+  induction l with
+  | nil => intro acc; simp [pure, Except.pure]
+  | cons a rest ih =>
+    intro acc
+    rw [List.foldlM_cons]
+    by_cases h : hasKey a self.metrics = true
+    · simp [cmBody, h, ih, bind, Except.bind, pure, Except.pure]
+    · simp [cmBody, h, ih, bind, Except.bind, pure, Except.pure]
+
+end Aux
+
+/-- `check_mandatory()` -/
+theorem check_mandatory_eq (self : Code3.Self) :
+    (Code3.check_mandatory self).mapError Py.Exc.toErr = Model.checkMandatory Model.V3.tables self.metrics := by
+  have hf := Aux.cm_fold self Gen.V3.mandatory []
+  unfold Code3.check_mandatory Model.checkMandatory
+  change (List.foldlM (Aux.cmBody self) [] Gen.V3.mandatory >>= _).mapError _ = _
+  rw [hf]
+  simp only [List.nil_append, bind, Except.bind]
+  by_cases hall : Model.V3.tables.mandatory.all (fun k => hasKey k self.metrics) = true
+  · have : List.filter (fun k => !hasKey k self.metrics) Gen.V3.mandatory = [] := by
+      rw [List.filter_eq_nil_iff]
+      intro a ha
+      have := (List.all_eq_true.mp hall) a ha
+      simp [this]
+    rw [if_neg (fun hne => hne this), if_pos hall]
+    rfl
+  · have : List.filter (fun k => !hasKey k self.metrics) Gen.V3.mandatory ≠ [] := by
+      intro hnil
+      apply hall
+      rw [List.all_eq_true]
+      intro a ha
+      have := (List.filter_eq_nil_iff.mp hnil) a ha
+      simpa using this
+    rw [if_pos this, if_neg hall]
+    rfl
+
+namespace Aux
+
+theorem construct_unfold (s : Str) :
+    Code3.construct s =
+      Code3.parse_vector (Code3.initSelf s []) >>= fun self =>
+        Code3.check_mandatory self >>= fun _ => Code3.init_tail self s := by
+  unfold Code3.construct Code3.init Code3.init_tail; rfl
+
+end Aux
+
+/-- THE WHOLE CONSTRUCTOR, for every string: `CVSS3(s)` as translated from the source text and the
+    model's `construct` fail with the same exception class or succeed with the same vector, minor
+    version, original and filled-in metric dicts and the same three scores -/
+theorem construct_eq (s : Str) :
+    ((Code3.construct s).mapError Py.Exc.toErr).map
+        (fun x => (x.vector, x.minor_version, x.original_metrics, x.metrics, x.base_score, x.temporal_score,
+                   x.environmental_score)) =
+      (Model.V3.construct s).map
+        (fun o => (o.vector, some (o.minor : Int), some o.orig, o.metrics, some o.base, some o.temporal, some o.env)) := by
+  rw [Aux.construct_unfold]
+  have hp := parse_vector_eq (Code3.initSelf s []) rfl
+  change _ = (Model.parseWithPrefix Model.V3.tables Model.V3.prefixes s).map _ at hp
+  unfold Model.V3.construct Model.V3.parse
+  cases hpv : Code3.parse_vector (Code3.initSelf s []) with
+  | error e =>
+    rw [hpv] at hp
+    cases hm : Model.parseWithPrefix Model.V3.tables Model.V3.prefixes s with
+    | error e' => rw [hm] at hp; cases hp; rfl
+    | ok r => rw [hm] at hp; cases hp
+  | ok x =>
+    rw [hpv] at hp
+    cases hm : Model.parseWithPrefix Model.V3.tables Model.V3.prefixes s with
+    | error e' => rw [hm] at hp; cases hp
+    | ok r =>
+      obtain ⟨i, m⟩ := r
+      rw [hm] at hp
+      have hp' : (x.vector, x.minor_version, x.metrics) = (s, some (i : Int), m) := Except.ok.inj hp
+      simp only [Prod.mk.injEq] at hp'
+      obtain ⟨hx1, hx2, hx3⟩ := hp'
+      have hc := check_mandatory_eq x
+      rw [hx3] at hc
+      change ((Code3.check_mandatory x >>= fun _ => Code3.init_tail x s).mapError _).map _ = _
+      cases hcm : Code3.check_mandatory x with
+      | error e => rw [hcm] at hc; simp only [← hc]; rfl
+      | ok u =>
+        rw [hcm] at hc
+        simp only [← hc]
+        change ((Code3.init_tail x s).mapError _).map _ = _
+        have h1 := init_tail_eq x s s i hx2
+        rw [hx3] at h1
+        cases hit : Code3.init_tail x s with
+        | error e =>
+          have h2 := init_tail_error x s e hit
+          rw [hit] at h1
+          cases hb : Model.V3.build s i m with
+          | none => simp only [Except.mapError, Except.map, h2, hb]
+          | some o => rw [hb] at h1; cases h1
+        | ok y =>
+          have h3 := init_tail_frame x y s hit
+          rw [hit] at h1
+          cases hb : Model.V3.build s i m with
+          | none => rw [hb] at h1; cases h1
+          | some o =>
+            rw [hb] at h1
+            have hf := Aux.build_frame s i m o hb
+            have h1' := Option.some.inj h1
+            simp only [Prod.mk.injEq] at h1'
+            obtain ⟨e1, e2, e3, e4, e5⟩ := h1'
+            simp only [Except.mapError, Except.map, h3.1, h3.2, hx1, hx2, e1, e2, e3, e4, e5, hb, hf.1, hf.2.1]
 
 namespace Aux
 
@@ -419,7 +951,7 @@ theorem fmtPrefix (x : Str) : Py.format c!"CVSS:3.{0}/" [x] = c!"CVSS:3." ++ x +
   simp [Py.format, Py.formatAux, Py.fmtField]
 
 /-- the loop body of `clean_vector` -/
-def cvBody (self : Code3.Self) (st : List Str) (metric : Str) : Option (List Str) := (do
+def cvBody (self : Code3.Self) (st : List Str) (metric : Str) : Py.M (List Str) := (do
     let vector := st
     let d1 ← Py.req self.original_metrics
     let vector ← (if (Py.contains metric d1 = true) then (do
@@ -442,18 +974,18 @@ def cvF (orig : List (Str × Str)) (k : Str) : Option Str :=
 
 theorem cv_fold (self : Code3.Self) (orig : List (Str × Str)) (h1 : self.original_metrics = some orig)
     (l : List Str) : ∀ acc : List Str,
-    List.foldlM (cvBody self) acc l = some (acc ++ l.filterMap (cvF orig)) := by
+    List.foldlM (cvBody self) acc l = .ok (acc ++ l.filterMap (cvF orig)) := by
   induction l with
-  | nil => intro acc; simp
+  | nil => intro acc; simp [pure, Except.pure]
   | cons a rest ih =>
     intro acc
     rw [List.foldlM_cons]
     cases h : lookup a orig with
-    | none => simp [cvBody, cvF, h1, hasKey, Py.getitem, h, ih]
+    | none => simp [cvBody, cvF, h1, hasKey, Py.req, h, ih, bind, Except.bind, pure, Except.pure]
     | some v =>
       by_cases hv : v = c!"X"
-      · simp [cvBody, cvF, h1, hasKey, Py.getitem, Model.V3.X, h, hv, ih]
-      · simp [cvBody, cvF, h1, hasKey, Py.getitem, Model.V3.X, h, hv, ih, fmt2]
+      · simp [cvBody, cvF, h1, hasKey, Py.getitem, Py.req, Model.V3.X, h, hv, ih, bind, Except.bind, pure, Except.pure]
+      · simp [cvBody, cvF, h1, hasKey, Py.getitem, Py.req, Model.V3.X, h, hv, ih, fmt2, bind, Except.bind, pure, Except.pure]
 
 theorem strOInt_nat (n : Nat) : Py.strOInt (some (n : Int)) = natToStr n := rfl
 
@@ -462,37 +994,75 @@ end Aux
 /-- `clean_vector(output_prefix)` on a constructed object -/
 theorem clean_vector_eq (self : Code3.Self) (orig : List (Str × Str)) (minor : Nat) (p : Bool)
     (h1 : self.original_metrics = some orig) (h2 : self.minor_version = some (minor : Int)) :
-    Code3.clean_vector self p = some (Model.V3.cleanOf minor orig p) := by
+    Code3.clean_vector self p = .ok (Model.V3.cleanOf minor orig p) := by
   have hf := Aux.cv_fold self orig h1 (keys Gen.V3.abbrs) []
   unfold Code3.clean_vector Model.V3.cleanOf
-  simp only [Option.bind_eq_bind, pure]
-  change (List.foldlM (Aux.cvBody self) [] (keys Gen.V3.abbrs)).bind _ = _
+  change (List.foldlM (Aux.cvBody self) [] (keys Gen.V3.abbrs)) >>= _ = _
   rw [hf]
-  change _ = some ((if p = true then Model.V3.versionPrefix minor else []) ++
+  change _ = Except.ok ((if p = true then Model.V3.versionPrefix minor else []) ++
     join '/' (List.filterMap (Aux.cvF orig) (keys Gen.V3.abbrs)))
-  cases p <;> simp [Aux.fmtPrefix, h2, Aux.strOInt_nat, Model.V3.versionPrefix]
+  cases p <;> simp [Aux.fmtPrefix, h2, Aux.strOInt_nat, Model.V3.versionPrefix, bind, Except.bind, pure, Except.pure]
+
+namespace Aux
+
+/-- the loop body of `severities` -/
+def sevBody (st : List Str) (score : Option Rat) : Py.M (List Str) := (do
+    let severities := st
+    let severities ← (if (score = some (mkRat (0) 1)) then (do
+        let severities : List Str := severities ++ [c!"None"]
+        pure severities) else (do
+        let v1 ← Py.req score
+        let severities ← (if (v1 ≤ (mkRat (39) 10)) then (do
+            let severities : List Str := severities ++ [c!"Low"]
+            pure severities) else (do
+            let v2 ← Py.req score
+            let severities ← (if (v2 ≤ (mkRat (69) 10)) then (do
+                let severities : List Str := severities ++ [c!"Medium"]
+                pure severities) else (do
+                let v3 ← Py.req score
+                let severities ← (if (v3 ≤ (mkRat (89) 10)) then (do
+                    let severities : List Str := severities ++ [c!"High"]
+                    pure severities) else (do
+                    let severities : List Str := severities ++ [c!"Critical"]
+                    pure severities))
+                pure severities))
+            pure severities))
+        pure severities))
+    pure severities)
+
+theorem sev_step (acc : List Str) (x : Rat) : sevBody acc (some x) = .ok (acc ++ [Model.V3.sevOf x]) := by
+  unfold sevBody Model.V3.sevOf
+  simp only [Model.V3.r, q_0, Py.req, Option.some.injEq, bind, Except.bind, pure, Except.pure]
+  by_cases b0 : x = 0
+  · simp [b0]
+  · by_cases b1 : x ≤ mkRat 39 10
+    · simp [b0, b1]
+    · by_cases b2 : x ≤ mkRat 69 10
+      · simp [b0, b1, b2]
+      · by_cases b3 : x ≤ mkRat 89 10 <;> simp [b0, b1, b2, b3]
+
+end Aux
 
 /-- `severities()` on a constructed object (all three scores set) -/
 theorem severities_eq (self : Code3.Self) (b t e : Rat)
     (hb : self.base_score = some b) (ht : self.temporal_score = some t) (he : self.environmental_score = some e) :
-    Code3.severities self = some [Model.V3.sevOf b, Model.V3.sevOf t, Model.V3.sevOf e] := by
+    Code3.severities self = .ok [Model.V3.sevOf b, Model.V3.sevOf t, Model.V3.sevOf e] := by
   unfold Code3.severities
-  simp only [hb, ht, he, Model.V3.sevOf, Model.V3.r, Aux.q_0, Py.req, List.foldlM, Option.bind_eq_bind,
-    Option.some.injEq, pure]
-  by_cases b0 : b = 0 <;> by_cases b1 : b ≤ mkRat 39 10 <;> by_cases b2 : b ≤ mkRat 69 10 <;>
-    by_cases b3 : b ≤ mkRat 89 10 <;> simp [b0, b1, b2, b3] <;>
-  by_cases t0 : t = 0 <;> by_cases t1 : t ≤ mkRat 39 10 <;> by_cases t2 : t ≤ mkRat 69 10 <;>
-    by_cases t3 : t ≤ mkRat 89 10 <;> simp [t0, t1, t2, t3] <;>
-  by_cases e0 : e = 0 <;> by_cases e1 : e ≤ mkRat 39 10 <;> by_cases e2 : e ≤ mkRat 69 10 <;>
-    by_cases e3 : e ≤ mkRat 89 10 <;> simp [e0, e1, e2, e3]
+  change List.foldlM Aux.sevBody [] [self.base_score, self.temporal_score, self.environmental_score] = _
+  rw [hb, ht, he, List.foldlM_cons, Aux.sev_step]
+  change List.foldlM Aux.sevBody _ _ = _
+  rw [List.foldlM_cons, Aux.sev_step]
+  change List.foldlM Aux.sevBody _ _ = _
+  rw [List.foldlM_cons, Aux.sev_step]
+  rfl
 
 /-- `temporal_vector()` / `environmental_vector()` -/
 theorem temporal_vector_eq (self : Code3.Self) (o : Model.V3.Obj) (h : o.metrics = self.metrics) :
-    Code3.temporal_vector self = some o.temporalVector := by
-  simp [Code3.temporal_vector, Model.V3.Obj.temporalVector, h, Model.V3.X, Py.getD]
+    Code3.temporal_vector self = .ok o.temporalVector := by
+  simp [Code3.temporal_vector, Model.V3.Obj.temporalVector, h, Model.V3.X, Py.getD, pure, Except.pure]
 
 theorem environmental_vector_eq (self : Code3.Self) (o : Model.V3.Obj) (h : o.metrics = self.metrics) :
-    Code3.environmental_vector self = some o.environmentalVector := by
-  simp [Code3.environmental_vector, Model.V3.Obj.environmentalVector, h, Model.V3.X, Py.getD]
+    Code3.environmental_vector self = .ok o.environmentalVector := by
+  simp [Code3.environmental_vector, Model.V3.Obj.environmentalVector, h, Model.V3.X, Py.getD, pure, Except.pure]
 
 end Cvss.Props.CodeTie3
